@@ -144,7 +144,7 @@ def check(prop, tier, seed):
         run.notes["grammar_of_record_drift"] = True
     runs = r.tagged("RUN")
     # replay: each witness rendered (1 rendering quick, 3 thorough)
-    reps = 1 if tier == "quick" else 3
+    reps = 1 if tier == "quick" else 8
     batch = []
     for j in runs:
         for _ in range(reps):
@@ -250,7 +250,7 @@ def random_valid_tokens(rng):
 
 
 def long_cases(run, tier, rng, wd, kg):
-    n = 150 if tier == "quick" else 2500
+    n = 150 if tier == "quick" else 20000
     cases = []
     for _ in range(n):
         w = random_valid_tokens(rng)
